@@ -51,7 +51,8 @@ def classify_exit(f, u, v):
 def check_sched_exits(chk, prog):
     R = chk.rule("R-SCHED-EXITS", "run_schedule: Saturate loop exits (normally) only on `updated == false` of the recursive result; Repeat is a "
                  "range loop 0..limit whose only other exit is `can_stop == true`; Sequence has no early exit; Run delegates to run_rules")
-    f = prog.need(RS)
+    f = prog.need_role(RS, lambda x: x.crate == "egglog" and any(c.p == x.name for c in x.calls) and bool(match_arms(prog, x, SCHED)),
+                       "recursive egglog function matching on GenericSchedule")
     arms = match_arms(prog, f, SCHED)
     if not arms:
         chk.missing(R, "match on GenericSchedule in run_schedule")
@@ -150,7 +151,8 @@ def check_until(chk, prog):
 def check_report_flow(chk, prog):
     R = chk.rule("R-REPORT-FLOW", "sub-reports flow into RunReport::union of the returned accumulator; union: updated |=, can_stop &=; singleton: "
                  "updated = iteration.changed(), can_stop = !updated; changed() = rule_set_report.changed = merge_all()")
-    f = prog.need(RS)
+    f = prog.need_role(RS, lambda x: x.crate == "egglog" and any(c.p == x.name for c in x.calls) and bool(match_arms(prog, x, SCHED)),
+                       "recursive egglog function matching on GenericSchedule")
     unions = f.calls_to("egglog_reports::RunReport::union")
     n = 0
     for c in f.calls:
